@@ -129,6 +129,11 @@ func columnsOf(e *EnumDef) []string {
 	}
 	var out []string
 	for _, cl := range l.Cells {
+		if cl.Var == "_" || cl.Var == "__" {
+			// the line of the lowest value does not name its traits: outside the documented shape
+			// (the generator skips such columns); no accessors are expected or observed
+			return nil
+		}
 		out = append(out, strings.TrimPrefix(cl.Var, "_"))
 	}
 	return out
@@ -348,6 +353,14 @@ func planFor(r *rand.Rand, fd *FileDef, e *EnumDef, mode string) *enumPlan {
 					words = append(words, cl.Str)
 				} else if cl.Kind == "int" {
 					words = append(words, cl.Int)
+					if b := narrowBits(cl.Ty); b > 0 {
+						// numbers that WRAP to the trait value under Go's conversion: out of range,
+						// must be rejected (not silently mapped)
+						v, _ := new(big.Int).SetString(cl.Int, 10)
+						m := new(big.Int).Lsh(bigOf(1), uint(b))
+						words = append(words, new(big.Int).Add(v, m).String(), new(big.Int).Sub(v, m).String(),
+							new(big.Int).Add(v, new(big.Int).Lsh(m, 1)).String())
+					}
 				} else if cl.Kind == "bool" {
 					if cl.Bool {
 						words = append(words, "true")
